@@ -58,6 +58,28 @@ pub fn case_tokens(ctx: &mut Ctx, size: &str, ops: &str) {
     ctx.emit("c12t", &[size, ops], &obs);
 }
 
+/// c12b: a large TokenSet: every unit is taken, `back` of them are given back at once, and as many must be obtainable again.
+pub fn case_tokens_big(ctx: &mut Ctx, size: &str, back: &str) {
+    let sz: usize = size.parse().unwrap();
+    let bk: usize = back.parse().unwrap();
+    let (tx, rx) = std::sync::mpsc::channel::<String>();
+    std::thread::spawn(move || {
+        let r = std::panic::catch_unwind(move || {
+            let mut set = TokenSet::new(sz);
+            let mut live: Vec<Token> = Vec::new();
+            while let Ok(t) = set.wait_token_timeout(Duration::ZERO) { live.push(t); if live.len() > sz + 8 { break; } }
+            let first = live.len();
+            live.truncate(first.saturating_sub(bk));
+            let mut again = 0;
+            while let Ok(t) = set.wait_token_timeout(Duration::ZERO) { live.push(t); again += 1; if again > sz + 8 { break; } }
+            format!("first={first} again={again} held={}", live.len())
+        });
+        let _ = tx.send(r.unwrap_or_else(|_| "PANIC".to_string()));
+    });
+    let obs = rx.recv_timeout(Duration::from_secs(20)).unwrap_or_else(|_| "HANG".to_string());
+    ctx.emit("c12b", &[size, back], &obs);
+}
+
 fn enumerate(ctx: &mut Ctx, alphabet: &[char], depth: usize, sizes: &[usize], idx: &mut u64) {
     for &sz in sizes {
         // DFS over sequences; `w` only where a unit is available (it blocks otherwise, by contract)
@@ -357,13 +379,23 @@ pub fn case_limit(ctx: &mut Ctx, n: &str, kinds: &str, delays: &str) {
     ctx.emit("c12", &[n, kinds, delays], &obs);
 }
 
+/// Installs a logger whose queue of one event is full and is never drained; returns what keeps it installed (and the receiver alive).
+pub fn stalled_logger_guard() -> (servlin::log::internal::ClearGlobalLoggerOnDrop, std::sync::mpsc::Receiver<servlin::log::internal::LogEvent>) {
+    let (tx, rx) = std::sync::mpsc::sync_channel::<servlin::log::internal::LogEvent>(1);
+    let _ = tx.try_send(servlin::log::internal::LogEvent::new(servlin::log::Level::Info, ()));
+    (servlin::log::set_global_logger(tx).expect("logger"), rx)
+}
+
 /// c13: `n` = max_conns; `phases` = one char per connection: i idle keep-alive, h head partially received, r handler running,
 /// b body upload in progress, w response being written, - (none); `delay` ms between set-up and revocation.
 pub fn case_shutdown(ctx: &mut Ctx, n: &str, phases: &str, delay: &str) {
     let nn: usize = n.parse().unwrap();
-    let ph: Vec<char> = phases.chars().filter(|c| *c != '-').collect();
+    // `L` anywhere in `phases`: the application's logger is stalled (its one-slot queue is full and nobody drains it)
+    let stalled_logger = phases.contains('L');
+    let ph: Vec<char> = phases.chars().filter(|c| *c != '-' && *c != 'L').collect();
     let delay_ms: u64 = delay.parse().unwrap();
     let obs = guard(move || {
+        let _stall = if stalled_logger { Some(stalled_logger_guard()) } else { None };
         let files_now = || std::fs::read_dir(super::c06::scratch_dir()).map(|r| r.filter(|e| e.as_ref().map(|e| e.path().is_file()).unwrap_or(false)).count()).unwrap_or(0);
         let files_before = files_now();
         let mut leak = 0usize;
@@ -477,9 +509,11 @@ fn set_nofile_soft(limit: u64) -> bool {
 /// client's socket takes the last one and the server's accept() fails with EMFILE; then the dummies are closed.
 /// `logger` = `live` (the events are captured and counted) or `dead`: the installed logger's receiver is gone, so every
 /// logging call inside the server reports `LoggerStoppedError` — a failed accept must not take the accept loop down with it.
-pub fn case_emfile(ctx: &mut Ctx, n: &str, rounds: &str, logger: &str) {
+/// `hold` = how long (ms) the descriptor table stays full in each round (accept fails about twice per second meanwhile).
+pub fn case_emfile(ctx: &mut Ctx, n: &str, rounds: &str, logger: &str, hold: &str) {
     let nn: usize = n.parse().unwrap();
     let rr: usize = rounds.parse().unwrap();
+    let hold_ms: u64 = hold.parse().unwrap();
     let dead = logger == "dead";
     let obs = guard(move || {
         let (log_tx, log_rx) = std::sync::mpsc::sync_channel::<servlin::log::internal::LogEvent>(10_000);
@@ -510,6 +544,12 @@ pub fn case_emfile(ctx: &mut Ctx, n: &str, rounds: &str, logger: &str) {
             // waiting in the backlog is what a failed accept means; a connection that is closed instead means the listener went away
             let first = read_response(&mut c);
             if first.starts_with("timeout") { starved += 1; } else if !first.starts_with("200") { dropped += 1; }
+            if hold_ms > 250 {
+                // a long episode of failing accepts: the client keeps waiting in the backlog
+                let _ = c.set_read_timeout(Some(Duration::from_millis(hold_ms - 250)));
+                let again = read_response(&mut c);
+                if !again.starts_with("timeout") && !again.starts_with("200") { dropped += 1; }
+            }
             drop(dummies);
             let _ = c.set_read_timeout(Some(Duration::from_secs(5)));
             if read_response(&mut c) == "200/2" { served += 1; }
@@ -526,14 +566,14 @@ pub fn case_emfile(ctx: &mut Ctx, n: &str, rounds: &str, logger: &str) {
         let logged = log_counter.join().unwrap_or(0);
         format!("starved={starved} dropped={dropped} served={served} emfile_logged={} full={} fresh={fresh_ok} max={max} stopped={}", u8::from(dead || logged >= rr), u8::from(full), u8::from(stopped))
     });
-    ctx.emit("c12e", &[n, rounds, logger], &obs);
+    ctx.emit("c12e", &[n, rounds, logger, hold], &obs);
 }
 
 pub fn run_emfile(ctx: &mut Ctx) {
-    let cases: &[(usize, usize, &str)] = if ctx.thorough() { &[(1, 1, "live"), (1, 3, "live"), (2, 2, "live"), (3, 1, "live"), (4, 2, "live"), (1, 2, "dead"), (3, 1, "dead")] }
-        else { &[(1, 1, "live"), (2, 2, "live"), (2, 1, "dead")] };
-    for (i, (n, r, l)) in cases.iter().enumerate() {
-        if ctx.mine(i as u64 + 1) { case_emfile(ctx, &n.to_string(), &r.to_string(), l); }
+    let cases: &[(usize, usize, &str, u64)] = if ctx.thorough() { &[(1, 1, "live", 250), (1, 3, "live", 250), (2, 2, "live", 250), (3, 1, "live", 250), (4, 2, "live", 250), (1, 2, "dead", 250), (3, 1, "dead", 250), (2, 1, "live", 4700), (1, 1, "live", 11000)] }
+        else { &[(1, 1, "live", 250), (2, 2, "live", 250), (2, 1, "dead", 250), (2, 1, "live", 4700)] };
+    for (i, (n, r, l, h)) in cases.iter().enumerate() {
+        if ctx.mine(i as u64 + 1) { case_emfile(ctx, &n.to_string(), &r.to_string(), l, &h.to_string()); }
     }
 }
 
@@ -620,6 +660,11 @@ pub fn run_upload_revoked(ctx: &mut Ctx) {
 
 pub fn run_tokens(ctx: &mut Ctx) {
     let mut idx = 0u64;
+    // large sets: more units than any fixed-size internal queue one might pick
+    for (sz, back) in [(1025usize, 1025usize), (1100, 1100), (1100, 1030), (5000, 5000), (70000, 66000)] {
+        idx += 1;
+        if ctx.mine(idx) { case_tokens_big(ctx, &sz.to_string(), &back.to_string()); }
+    }
     if ctx.thorough() {
         enumerate(ctx, &['w', 't', 'o', 'y'], 8, &[1, 2, 3], &mut idx);
         enumerate(ctx, &['w', 't', 'a', 'o', 'y', 'n'], 6, &[1, 2, 3], &mut idx);
@@ -652,6 +697,8 @@ pub fn run_shutdown(ctx: &mut Ctx) {
     let mut cases: Vec<(usize, String)> = vec![(1, "-".to_string()), (3, "-".to_string())];
     for p in phases { cases.push((2, p.to_string())); cases.push((1, p.to_string())); }
     for n in 1..=4 { cases.push((n, "i".repeat(n))); }
+    // the application's logger is stalled while the server shuts down
+    cases.push((2, "L".to_string())); cases.push((2, "Lr".to_string())); cases.push((1, "Li".to_string()));
     let extra = if ctx.thorough() { 120 } else { 14 };
     for _ in 0..extra {
         let n = rng.range(1, 4) as usize;
